@@ -36,6 +36,7 @@ from . import core
 from .core import Violation, Stats, EventLog, enc_payload, dec_payload
 from .forkserver import ForkServer
 from .histsim import pack, exc_sig, factory_class
+from . import traced
 
 PROP = "C19"
 WATCHDOG_S = 240
@@ -79,7 +80,8 @@ def run_program(prog, yield_hook=None):
                 qr.print_tty(out=s)
                 res = s.text()
             elif kind == "image":
-                img = qr.make_image(factory_class(step[1]))
+                kw = dict(step[3]) if len(step) > 3 else {}
+                img = qr.make_image(factory_class(step[1]), **kw)
                 if step[2] == "to_string" and hasattr(img, "to_string"):
                     res = img.to_string()
                 else:
@@ -100,121 +102,13 @@ def run_program(prog, yield_hook=None):
 # recording dictionaries for the process-wide state
 # --------------------------------------------------------------------------
 
-class TracedDict(dict):
-    """dict whose every access is a scheduler point.  `_hook(kind, key)` is
-    called before the access and `_after()` after it."""
-    _hook = None
-    _name = "?"
-
-    def _pt(self, kind, key):
-        h = TracedDict._hook
-        if h is not None:
-            h(self._name, kind, key)
-
-    def _af(self):
-        h = TracedDict._after_hook
-        if h is not None:
-            h()
-
-    _after_hook = None
-
-    def __getitem__(self, k):
-        self._pt("get", k)
-        try:
-            return dict.__getitem__(self, k)
-        finally:
-            self._af()
-
-    def __setitem__(self, k, v):
-        self._pt("set", k)
-        try:
-            return dict.__setitem__(self, k, v)
-        finally:
-            self._af()
-
-    def __delitem__(self, k):
-        self._pt("del", k)
-        try:
-            return dict.__delitem__(self, k)
-        finally:
-            self._af()
-
-    def __contains__(self, k):
-        self._pt("in", k)
-        try:
-            return dict.__contains__(self, k)
-        finally:
-            self._af()
-
-    def get(self, k, d=None):
-        self._pt("get", k)
-        try:
-            return dict.get(self, k, d)
-        finally:
-            self._af()
-
-    def items(self):
-        self._pt("items", None)
-        try:
-            return dict.items(self)
-        finally:
-            self._af()
-
-    def keys(self):
-        self._pt("keys", None)
-        return dict.keys(self)
-
-    def values(self):
-        self._pt("values", None)
-        return dict.values(self)
-
-    def __iter__(self):
-        self._pt("iter", None)
-        return dict.__iter__(self)
-
-    def pop(self, k, *a):
-        self._pt("pop", k)
-        try:
-            return dict.pop(self, k, *a)
-        finally:
-            self._af()
-
-    def setdefault(self, k, d=None):
-        self._pt("setdefault", k)
-        try:
-            return dict.setdefault(self, k, d)
-        finally:
-            self._af()
-
-    def update(self, *a, **kw):
-        self._pt("update", None)
-        try:
-            return dict.update(self, *a, **kw)
-        finally:
-            self._af()
-
-    def clear(self):
-        self._pt("clear", None)
-        return dict.clear(self)
-
-
 def install_traced_dicts():
-    """Rebind the two known process-wide dictionaries (module globals looked
-    up by name at call time) to recording subclasses.  Returns what was found."""
-    found = []
-    import qrcode.main as qm
+    """Rebind every process-wide container of the library (module-level and
+    class-level dict / list / set, mutable default arguments) and ElementTree's
+    namespace map to recording subclasses (sim/traced.py).  Returns their names."""
     from qrcode.compat.etree import ET
-    if isinstance(getattr(qm, "precomputed_qr_blanks", None), dict):
-        d = TracedDict(qm.precomputed_qr_blanks)
-        d._name = "blanks"
-        qm.precomputed_qr_blanks = d
-        found.append("qrcode.main.precomputed_qr_blanks")
-    if isinstance(getattr(ET, "_namespace_map", None), dict):
-        d = TracedDict(ET._namespace_map)
-        d._name = "nsmap"
-        ET._namespace_map = d
-        found.append("ElementTree._namespace_map")
-    return found
+    return traced.install("qrcode", extra=[(ET, "_namespace_map",
+                                            "ElementTree._namespace_map")])
 
 
 def module_globals_digest():
@@ -253,8 +147,11 @@ class Sched:
     [points seen, next point number that needs the slow path, target line or -1,
     target file suffix, occurrences of the target still to skip]."""
 
-    def __init__(self, n, prio, preemptions, strategy=None, rng=None):
+    def __init__(self, n, prio, preemptions, strategy=None, rng=None, oplines=None):
         self.n = n
+        # (tid, file suffix, line): frames containing that line get opcode events
+        self.oplines = [[(o[1], o[2]) for o in (oplines or []) if o[0] == t]
+                        for t in range(n)]
         self.prio = list(prio)
         self.events = [threading.Event() for _ in range(n)]
         self.all_done = threading.Event()
@@ -266,18 +163,20 @@ class Sched:
         self.switch_log = []            # preemptions that actually happened
         self.access_log = []            # (tid, dict, kind, key)
         self.windows = 0                # switches that happened at a shared access
+        self.sub_line_targets = 0
         self.strategy = strategy or {"kind": "explicit"}
         self.rng = rng
         self.threads = []
         self.step_trig = [[] for _ in range(n)]     # sorted local point numbers
         self.loc_queue = [[] for _ in range(n)]
+        self.loc_sub = [0] * n          # opcode events to let pass after reaching the line
         self.acc_trig = [dict() for _ in range(n)]   # j -> when
         self.gtrig = []                               # sorted global point numbers
         for p in preemptions:
             if p[0] == "step":
                 self.step_trig[p[1]].append(p[2])
             elif p[0] == "loc":
-                self.loc_queue[p[1]].append((p[2], p[3], p[4]))
+                self.loc_queue[p[1]].append((p[2], p[3], p[4], p[5] if len(p) > 5 else 0))
             elif p[0] == "acc":
                 self.acc_trig[p[1]][p[2]] = p[3] if len(p) > 3 else "before"
             elif p[0] == "stepg":
@@ -302,10 +201,12 @@ class Sched:
     def _next_loc(self, t):
         s = self.S[t]
         if self.loc_queue[t]:
-            fn, ln, k = self.loc_queue[t].pop(0)
+            fn, ln, k, j = self.loc_queue[t].pop(0)
             s[2], s[3], s[4] = ln, fn, k
+            self.loc_sub[t] = j
         else:
             s[2], s[3], s[4] = -1, "", 0
+            self.loc_sub[t] = 0
 
     def _arm(self, t):
         """Thread t is about to run: compute the next point number at which
@@ -374,8 +275,16 @@ class Sched:
         if s[2] == ln and fn.endswith(s[3]):
             s[4] -= 1
             if s[4] <= 0:
-                why = ["loc", me, s[3], s[2], None]
+                sub = self.loc_sub[me]
                 self._next_loc(me)
+                if sub > 0:
+                    # sub-line target: let `sub` more points (opcode events of this
+                    # function) pass, then yield in the middle of the line
+                    import bisect
+                    bisect.insort(self.step_trig[me], ls + sub)
+                    self.sub_line_targets += 1
+                    self._arm(me)
+                    return
                 self._yield_to_next(me, ["step", me, ls])
                 return
         st = self.step_trig[me]
@@ -396,9 +305,10 @@ class Sched:
             return
         self._arm(me)
 
-    def access(self, dname, kind, key):
+    def access(self, container, kind, key):
         if not self.active:
             return
+        dname = container._name
         me = self.current
         if threading.current_thread() is not self.threads[me]:
             return      # e.g. the main thread during bookkeeping
@@ -415,7 +325,7 @@ class Sched:
             else:
                 self.acc_trig[me][j] = "after"
 
-    def after_access(self):
+    def after_access(self, container=None):
         if not self.active:
             return
         me = self.current
@@ -436,6 +346,20 @@ def make_tracer(sched, tid, roots, et_file, profile=None):
     slow = sched.slow
     opcode_funcs = OPCODE_FUNCS
     init_files = OPCODE_INIT_FILES
+    oplines = sched.oplines[tid]
+    codecache = {}
+
+    def wants_opcodes(code):
+        r = codecache.get(code)
+        if r is None:
+            r = False
+            for suf, ln in oplines:
+                if code.co_filename.endswith(suf) and \
+                        any(l == ln for _, _, l in code.co_lines()):
+                    r = True
+                    break
+            codecache[code] = r
+        return r
 
     if profile is None:
         def local_trace(frame, event, arg):
@@ -464,7 +388,8 @@ def make_tracer(sched, tid, roots, et_file, profile=None):
         if not flag:
             return None
         if code.co_name in opcode_funcs or \
-                (code.co_name == "__init__" and fn.endswith(init_files)):
+                (code.co_name == "__init__" and fn.endswith(init_files)) or \
+                (oplines and wants_opcodes(code)):
             frame.f_trace_opcodes = True
         return local_trace
 
@@ -571,12 +496,12 @@ def traced_roots():
     return [root], getattr(ET, "__file__", "")
 
 
-def run_threads(programs, prio, preemptions, strategy, rng_seed):
+def run_threads(programs, prio, preemptions, strategy, rng_seed, oplines=None):
     """Run the programs concurrently under the scheduler.  -> (results per
     thread, sched)"""
     n = len(programs)
     rng = random.Random(rng_seed)
-    sched = Sched(n, prio, preemptions, strategy, rng)
+    sched = Sched(n, prio, preemptions, strategy, rng, oplines)
     roots, et_file = traced_roots()
     results = [None] * n
     errors = [None] * n
@@ -600,8 +525,8 @@ def run_threads(programs, prio, preemptions, strategy, rng_seed):
     threads = [threading.Thread(target=body, args=(t,), name=f"sim-{t}", daemon=True)
                for t in range(n)]
     sched.threads = threads
-    TracedDict._hook = sched.access
-    TracedDict._after_hook = sched.after_access
+    traced.HOOKS.before = sched.access
+    traced.HOOKS.after = sched.after_access
     for t in threads:
         t.start()
     sched.active = True
@@ -618,8 +543,8 @@ def run_threads(programs, prio, preemptions, strategy, rng_seed):
         raise core.HarnessError("threadsim: threads did not finish (lost baton?)")
     for t in threads:
         t.join(timeout=10)
-    TracedDict._hook = None
-    TracedDict._after_hook = None
+    traced.HOOKS.before = None
+    traced.HOOKS.after = None
     if any(errors):
         raise core.HarnessError(f"thread body failed: {errors}")
     return results, sched
@@ -644,8 +569,8 @@ def ref_handler(spec):
         sched.threads = [threading.current_thread()]
         sched.current = 0
         sched.active = True
-        TracedDict._hook = sched.access
-        TracedDict._after_hook = sched.after_access
+        traced.HOOKS.before = sched.access
+        traced.HOOKS.after = sched.after_access
         if use_mon:
             install_monitor(sched, roots, et_file, profile=prof)
         else:
@@ -657,8 +582,8 @@ def ref_handler(spec):
                 uninstall_monitor()
             else:
                 sys.settrace(None)
-            TracedDict._hook = None
-            TracedDict._after_hook = None
+            traced.HOOKS.before = None
+            traced.HOOKS.after = None
         root = roots[0]
         locs = sorted(((fn[len(root):] if fn.startswith(root) else os.path.basename(fn)), ln, c)
                       for (fn, ln), c in prof.items())
@@ -670,7 +595,7 @@ def ref_handler(spec):
 # one run
 # --------------------------------------------------------------------------
 
-CANARY_FACTORIES = ["svgfrag", "svg", "svgpath"]
+CANARY_FACTORIES = ["svgfrag", "svg", "svgpath", "pypng", "pil"]
 
 
 def canary_programs(versions):
@@ -679,8 +604,10 @@ def canary_programs(versions):
         progs.append([["new", [["version", v], ["mask_pattern", v % 8]]],
                       ["add", ["s", "CANARY-%d" % v], 20], ["make", False]])
     for f in CANARY_FACTORIES:
-        progs.append([["new", [["version", 1], ["mask_pattern", 1]]], ["add", ["s", "c"], 20],
-                      ["image", f, "save"]])
+        progs.append([["new", [["version", 1], ["mask_pattern", 1], ["box_size", 1]]],
+                      ["add", ["s", "c"], 20], ["image", f, "save"]])
+    progs.append([["new", [["version", 1], ["mask_pattern", 2]]], ["add", ["s", "c"], 20],
+                  ["print_ascii", "invert"], ["print_tty"]])
     return progs
 
 
@@ -698,6 +625,94 @@ def _tup(x):
     return tuple(_tup(i) for i in x) if isinstance(x, list) else x
 
 
+_HOT = {}
+
+
+def static_hot_lines():
+    """Source lines of the library that write process-wide state *without* going
+    through a container method (those are covered by sim/traced.py): STORE_GLOBAL /
+    DELETE_GLOBAL inside functions, attribute stores onto an object held in a module
+    global / onto `cls` / `__class__` / `type(...)`, plus the lines that read the
+    globals so written.  Found by disassembly; empty on the pinned tree.  Used only to
+    bias where the `loc` strategy places pre-emptions."""
+    if "v" in _HOT:
+        return _HOT["v"]
+    import dis
+    import types
+    roots, _ = traced_roots()
+    root = roots[0]
+    codes = []
+    seen = set()
+
+    def walk(code, glob):
+        if code in seen:
+            return
+        seen.add(code)
+        codes.append((code, glob))
+        for c in code.co_consts:
+            if isinstance(c, types.CodeType):
+                walk(c, glob)
+
+    for name, mod in sorted(sys.modules.items()):
+        if mod is None or not (name == "qrcode" or name.startswith("qrcode.")) \
+                or ".tests" in name:
+            continue
+        for v in list(vars(mod).values()):
+            if isinstance(v, types.FunctionType) and v.__module__ == name:
+                walk(v.__code__, v.__globals__)
+            elif isinstance(v, type) and v.__module__ == name:
+                for cv in vars(v).values():
+                    f = cv.__func__ if isinstance(cv, (classmethod, staticmethod)) else cv
+                    if isinstance(f, property):
+                        for g in (f.fget, f.fset, f.fdel):
+                            if isinstance(g, types.FunctionType):
+                                walk(g.__code__, g.__globals__)
+                    elif isinstance(f, types.FunctionType):
+                        walk(f.__code__, f.__globals__)
+    hot = set()
+    written = set()
+    per_code = []
+    for code, glob in codes:
+        fn = code.co_filename
+        if not fn.startswith(root):
+            continue
+        rel = fn[len(root):]
+        ins = list(dis.get_instructions(code))
+        line = code.co_firstlineno
+        rows = []
+        for i, x in enumerate(ins):
+            if x.positions is not None and x.positions.lineno is not None:
+                line = x.positions.lineno
+            rows.append((x, line))
+        per_code.append((rel, id(glob), rows))
+        for i, (x, ln) in enumerate(rows):
+            if x.opname in ("STORE_GLOBAL", "DELETE_GLOBAL"):
+                hot.add((rel, ln))
+                written.add((id(glob), x.argval))
+            elif x.opname == "STORE_ATTR" and i > 0:
+                p, _ = rows[i - 1]
+                tgt = False
+                if p.opname == "LOAD_GLOBAL":
+                    obj = glob.get(p.argval)
+                    tgt = obj is not None and not isinstance(
+                        obj, (types.FunctionType, types.BuiltinFunctionType))
+                elif p.opname == "LOAD_FAST" and p.argval == "cls":
+                    tgt = True
+                elif p.opname == "LOAD_ATTR" and p.argval == "__class__":
+                    tgt = True
+                elif p.opname == "CALL" and i > 2 and rows[i - 3][0].opname == "LOAD_GLOBAL" \
+                        and rows[i - 3][0].argval == "type":
+                    tgt = True
+                if tgt:
+                    hot.add((rel, ln))
+    for rel, gid, rows in per_code:
+        for x, ln in rows:
+            if x.opname == "LOAD_GLOBAL" and (gid, x.argval) in written:
+                hot.add((rel, ln))
+    _HOT["v"] = sorted(hot)
+    return _HOT["v"]
+
+
 def canonical(prog):
     """Program shape for the line profile: versions, forced/auto mask, step
     kinds and factories are kept; payloads and cosmetic settings are not (the
@@ -711,8 +726,7 @@ def canonical(prog):
                 c.append(["mask_pattern", 0])
             out.append(["new", c])
         elif st[0] == "add":
-            big = len(st[1][1]) > 100
-            out.append(["add", ["s", "y" * 80 if big else "a"], 0])
+            out.append(list(st))        # payload and threshold decide which lines run
         else:
             out.append(list(st))
     return out
@@ -720,36 +734,49 @@ def canonical(prog):
 
 def build_preemptions(case, ref, rng):
     """Turn the case's seeded strategy into explicit pre-emptions (where that
-    is possible before running)."""
+    is possible before running).  -> (pre-emptions, oplines)"""
     strat = case["strategy"]
     kind = strat["kind"]
     n = len(case["threads"])
     if kind == "explicit":
-        return [list(p) for p in case.get("preemptions", [])]
+        return [list(p) for p in case.get("preemptions", [])], \
+            [list(o) for o in case.get("oplines", [])]
     if kind in ("loc", "pct", "stall"):
         profs = [ref(("profile", _tup(canonical(p)))) for p in case["threads"]]
     if kind == "loc":
-        pre = []
+        pre, oplines = [], []
+        hotset = set(static_hot_lines())
         for _ in range(strat.get("targets", 1)):
             t = rng.randrange(n)
             locs = profs[t]["locs"]
             if not locs:
                 continue
             fn, ln, cnt = locs[rng.randrange(len(locs))]
+            hot = [l for l in locs if (l[0], l[1]) in hotset]
+            is_hot = bool(hot) and rng.random() < 0.6
+            if is_hot:
+                fn, ln, cnt = hot[rng.randrange(len(hot))]
             # bias to the first occurrences: state-changing work happens at entry
             k = 1 if rng.random() < 0.4 else rng.randint(1, cnt)
-            pre.append(["loc", t, fn, ln, k])
-        return pre
+            if rng.random() < (0.8 if is_hot else strat.get("p_subline", 0.5)):
+                # yield in the middle of that line: opcode events are switched on for
+                # the function containing it, and some of them are let pass
+                pre.append(["loc", t, fn, ln, k, rng.randint(1, 14)])
+                oplines.append([t, fn, ln])
+            else:
+                pre.append(["loc", t, fn, ln, k, 0])
+        return pre, oplines
     if kind == "pct":
         total = sum(p["points"] for p in profs)
-        return [["stepg", rng.randint(1, max(total, 1))] for _ in range(strat["depth"] - 1)]
+        return [["stepg", rng.randint(1, max(total, 1))]
+                for _ in range(strat["depth"] - 1)], []
     if kind == "stall":
         t = rng.randrange(n)
         a = profs[t]["accesses"]
         if a:
-            return [["acc", t, rng.randint(1, a), rng.choice(["before", "after"])]]
-        return []
-    return []        # walk / access decide online
+            return [["acc", t, rng.randint(1, a), rng.choice(["before", "after"])]], []
+        return [], []
+    return [], []        # walk / access decide online
 
 
 def run_case(case, ref):
@@ -779,11 +806,11 @@ def run_case(case, ref):
     stats.inc("cache." + cache["kind"])
 
     expected = [ref(("solo", _tup(p)))["results"] for p in programs]
-    preempt = build_preemptions(case, ref, rng)
+    preempt, oplines = build_preemptions(case, ref, rng)
     prio = case.get("prio") or list(range(n))
     strategy = case["strategy"]
     results, sched = run_threads(programs, prio, preempt, strategy,
-                                 case.get("sched_seed", 0))
+                                 case.get("sched_seed", 0), oplines)
     after = module_globals_digest()
     changed = sorted(k for k in after if before.get(k) != after[k])
 
@@ -804,6 +831,10 @@ def run_case(case, ref):
         stats.add("interleavings_contended", acc_hash)
         stats.inc("probe.two_threads_same_shared_key")
     stats.add("interleavings", acc_hash)
+    for hl in static_hot_lines():
+        stats.add("static_hot_lines", hl)
+    for nm in {a[1] for a in sched.access_log}:
+        stats.add("written_shared_containers", nm)
     if sched.switch_log:
         stats.inc("probe.runs_with_preemption")
     log.ev("prio", prio, "strategy", strategy["kind"], "points", sched.gstep(),
@@ -829,6 +860,20 @@ def run_case(case, ref):
 
     # canary: sequential use of the aged process must look pristine
     if not violations and case.get("canary", True):
+        # the threads' own programs once more, now sequentially in the aged process
+        for t in range(n):
+            got = run_program(programs[t])
+            stats.inc("canary.programs")
+            if got != expected[t]:
+                i = next(k for k, (g, w) in enumerate(zip(got, expected[t])) if g != w)
+                step = programs[t][i]
+                what = step[1] if step[0] == "image" else step[0]
+                viol("C19/state-leaked-into-later-objects",
+                     f"after the concurrent phase, thread {t}'s program run again "
+                     f"sequentially differs at step {i} {step[:3]} from a pristine process; "
+                     f"preemptions {sched.switch_log}", f"rerun|{what}")
+                break
+    if not violations and case.get("canary", True):
         for prog in canary_programs(touched):
             want = ref(("solo", _tup(prog)))["results"]
             got = run_program(prog)
@@ -841,7 +886,8 @@ def run_case(case, ref):
                      f"process", f"canary|{what}")
                 break
     # hand the explicit schedule back so that the run can be replayed exactly
-    explicit = {"prio": prio, "preemptions": sched.switch_log}
+    explicit = {"prio": prio, "preemptions": sched.switch_log, "oplines": oplines}
+    stats.inc("fault.sub_line_targets_reached", sched.sub_line_targets)
     return {"violations": [v.to_json() for v in violations], "stats": stats,
             "log": log.lines, "steps": sched.gstep(), "explicit": explicit,
             "contended": contended, "traced_dicts": found}
@@ -861,6 +907,23 @@ def _brief(r):
 # --------------------------------------------------------------------------
 
 PAYLOADS = ["a", "HELLO", "12345", "thread data", b"\x00\x01", "x" * 30, "7" * 40]
+
+
+SVG_DRAWER_ALIASES = ["circle", "gapped-circle", "gapped-square"]
+
+
+def _gen_drawers(rng):
+    """Optional drawer keyword arguments (aliases) for the SVG factories: with
+    them the eye drawer and the module drawer differ."""
+    if rng.random() >= 0.35:
+        return []
+    kw = []
+    r = rng.random()
+    if r < 0.7:
+        kw.append(["module_drawer", rng.choice(SVG_DRAWER_ALIASES)])
+    if r >= 0.5:
+        kw.append(["eye_drawer", rng.choice(SVG_DRAWER_ALIASES)])
+    return [kw]
 
 
 def gen_program(rng, shared_versions, tier, second=False):
@@ -884,24 +947,24 @@ def gen_program(rng, shared_versions, tier, second=False):
         return prog
     prog.append(["add", enc_payload(rng.choice(PAYLOADS)), rng.choice([20, 0])])
     if rng.random() < 0.7:
-        prog.append(["make", False if v > 1 or rng.random() < 0.5 else True])
+        prog.append(["make", rng.random() < 0.5])
     for _ in range(1 if second else rng.choice([1, 1, 2])):
         r = rng.random()
-        if r < 0.15:
+        if r < 0.10:
             prog.append(["get_matrix"])
-        elif r < 0.22:
+        elif r < 0.17:
             prog.append(["print_ascii", rng.choice(["plain", "invert", "tty"])])
-        elif r < 0.25:
+        elif r < 0.20:
             prog.append(["print_tty"])
-        elif r < 0.5:
+        elif r < 0.40:
             prog.append(["image", "svgfrag", rng.choice(["save", "to_string"])])
-        elif r < 0.7:
-            prog.append(["image", "svg", rng.choice(["save", "to_string"])])
-        elif r < 0.85:
-            prog.append(["image", "svgpath", "save"])
-        elif r < 0.92:
+        elif r < 0.56:
+            prog.append(["image", "svg", rng.choice(["save", "to_string"])] + _gen_drawers(rng))
+        elif r < 0.70:
+            prog.append(["image", "svgpath", "save"] + _gen_drawers(rng))
+        elif r < 0.82:
             prog.append(["image", "pypng", "save"])
-        elif r < 0.97:
+        elif r < 0.93:
             prog.append(["image", "pil", "save"])
         else:
             prog.append(["image", "styled", "save"])
@@ -938,6 +1001,21 @@ def generate(rng, tier, opts=None):
     if automask:
         threads = gen_automask_case(rng, tier)
         n = len(threads)
+    elif rng.random() < 0.18:
+        # twins: every thread runs the same program shape (same version, box size,
+        # factory, drawers) on its own data - maximal contention on anything that is
+        # keyed by size or by renderer
+        base = gen_program(rng, shared_versions, tier, second=True)
+        threads = []
+        for _ in range(n):
+            prog = [list(st) for st in base]
+            for st in prog:
+                if st[0] == "add":
+                    st[1] = enc_payload(rng.choice(PAYLOADS))
+                elif st[0] == "new":
+                    st[1] = [list(kv) if kv[0] != "mask_pattern" else
+                             ["mask_pattern", rng.randrange(8)] for kv in st[1]]
+            threads.append(prog)
     r = rng.random()
     if automask:
         r = 0.3 + 0.58 * r       # accesses are not where this one hides: loc / pct / walk
@@ -990,6 +1068,7 @@ def to_explicit(case, res):
     c["strategy"] = {"kind": "explicit"}
     c["prio"] = res["explicit"]["prio"]
     c["preemptions"] = res["explicit"]["preemptions"]
+    c["oplines"] = res["explicit"]["oplines"]
     return c
 
 
@@ -1043,6 +1122,8 @@ def minimise(ctx, case, violation):
             ren = lambda x: x - 1 if x > t else x  # noqa
             trial["prio"] = [ren(x) for x in case["prio"] if x != t]
             trial["preemptions"] = [[p[0], ren(p[1])] + p[2:] for p in case["preemptions"]]
+            trial["oplines"] = [[ren(o[0])] + o[1:] for o in case.get("oplines", [])
+                                if o[0] != t]
             if _fails(ctx, trial, key):
                 case = trial
         t -= 1
@@ -1075,6 +1156,10 @@ def coverage(merged, tier):
         "probes": st.group("probe."),
         "initial_cache_states": st.group("cache."),
         "canary_programs": st.count("canary.programs"),
+        "process_wide_containers_written_at_run_time": sorted(
+            st.sets.get("written_shared_containers", ())),
+        "static_hot_lines_(global/class_scalar_stores)": sorted(
+            st.sets.get("static_hot_lines", ())),
         "distinct_interleavings_or_states": {
             "measure": "distinct orders of (thread, dictionary, access kind, key) over the "
                        "process-wide dictionaries (schedules differing only in commuting "
